@@ -195,6 +195,23 @@ Theorem C11_wallops_step : forall cfg verify w i l msg text c w' o cl, Inv w -> 
     else o = [(i, srv cfg (err_noprivileges (client_name c)))].
 Proof. exact wallops_step. Qed.
 
+(* KILL AND DIE REQUIRE OPERATOR STATUS, as whole steps after any history: from a registered connection whose user is not an
+   operator the step sends the one privilege error to the sender and nothing to anybody else, closes nobody and leaves the
+   state and every connection record as they are *)
+Theorem C11_kill_refused_step : forall cfg verify w i l msg target comment c nick u w' o cl, Inv w ->
+  step cfg verify w i (EvLine l) = Ok (w', o, cl) ->
+  conns w !! i = Some c -> c_auth c = true -> c_nick c = Some nick -> users (sh w) !! nick = Some u -> um_oper (u_modes u) = false ->
+  tokenize l = inl msg -> command_of_message msg = inl (KILL target comment) ->
+  sh w' = sh w /\ conns w' = conns w /\ cl = [] /\ o = [(i, srv cfg (err_noprivileges (client_name c)))].
+Proof. exact kill_refused_step. Qed.
+
+Theorem C11_die_refused_step : forall cfg verify w i l msg message c nick u w' o cl, Inv w ->
+  step cfg verify w i (EvLine l) = Ok (w', o, cl) ->
+  conns w !! i = Some c -> c_auth c = true -> c_nick c = Some nick -> users (sh w) !! nick = Some u -> um_oper (u_modes u) = false ->
+  tokenize l = inl msg -> command_of_message msg = inl (DIE message) ->
+  sh w' = sh w /\ conns w' = conns w /\ cl = [] /\ o = [(i, srv cfg (err_cantkillserver (client_name c)))].
+Proof. exact die_refused_step. Qed.
+
 Print Assumptions C11_operator_only_from_oper.
 Print Assumptions C11_no_other_command_confers.
 Print Assumptions C11_modes_follow_commands.
@@ -211,5 +228,7 @@ Print Assumptions C11_die.
 Print Assumptions C11_squit.
 Print Assumptions C11_wallops.
 Print Assumptions C11_wallops_step.
+Print Assumptions C11_kill_refused_step.
+Print Assumptions C11_die_refused_step.
 Print Assumptions C11_wallops_audience.
 Print Assumptions C11_stats.
